@@ -226,15 +226,15 @@ theorem running_config_is_document {env : Env} {s : State} (h : Reachable env s)
   rw [hj] at this
   exact this
 
-/-- **a rejected request changes nothing** — everywhere except in the state right after
-    `DELETE /config/` (see `rejected_changes_nothing_full_fails`): any request that is not
-    answered 200 (traversal error, 409/404, malformed or failed If-Match, index failure,
-    load rejected by the apps, unknown id, 301, 405) leaves `rawCfg`, `rawCfgJSON`, the id
-    index and the running configuration exactly as they were. -/
-theorem rejected_changes_nothing_partial {env : Env} {s : State} (h : Reachable env s) (r : Req)
-    (hkey : hasCfgKey s.rawCfg = true) (hrej : (serve env r s).2.rejected = true) :
-    (serve env r s).1 = s :=
-  serve_rejected (reachable_inv h) hkey hrej
+/-- **a rejected request changes nothing.** After any history, any request that is not
+    answered 200 (traversal error, 409/404, malformed or failed If-Match, index failure, load
+    rejected by the apps, unknown id, 301, 405) leaves `rawCfg`, `rawCfgJSON`, the id index
+    and the running configuration exactly as they were — including right after
+    `DELETE /config/`, where the code before /repo's fix re-created the deleted key
+    (`rejected_changes_nothing_old_code_fails`). -/
+theorem rejected_changes_nothing {env : Env} {s : State} (h : Reachable env s) (r : Req)
+    (hrej : (serve env r s).2.rejected = true) : (serve env r s).1 = s :=
+  serve_rejected (reachable_inv h) hrej
 
 /-! ### an object tagged with @id is reachable under /id/ as that same object -/
 
@@ -389,8 +389,7 @@ example : exLoaded.loads = 1 := by decide
 example : (access .put pApps (.val .null) exLoaded.rawCfg).2 = .err .keyExists := by decide
 -- … and a PUT that has to create two maps succeeds
 example : (access .put pDeep (.val .null) exLoaded.rawCfg).2 = .ok none := by decide
--- rejected_changes_nothing_partial: its hypotheses hold for rejected writes on a loaded state
-example : hasCfgKey exLoaded.rawCfg = true := by decide
+-- rejected_changes_nothing: rejected writes on a loaded state
 example : (serve exEnv (exReq .put pId (.val (.bool true))) exLoaded).2 = .fail (.access .keyExists) := by decide
 example : (serve exEnv (exReq .patch pId (.val (.bool true))) exLoaded).2 = .fail .index := by decide
 -- ids_never_change_meaning: a document that differs from its stripped version, accepted
